@@ -51,6 +51,10 @@ def cases(tier, seed):
     for nm, tk, win in TAKES:
         out.append(('take_' + nm, dict(kind='take', take=tk, win=win)))
     out.append(('takeperiod_outside', dict(kind='extra', extra='takeperiod', place='after')))
+    # a coarse interval straddling the horizon counts with its covered part only (decided with the C13 machinery: option problem vs
+    # fine problem + equalities, whose step lengths are the covered fine steps)
+    out.append(('coarse_interval_straddles_start', dict(kind='coarse13', opt='coarse', kind13='contract', T=4, win=(-1, 5))))
+    out.append(('coarse_interval_straddles_end', dict(kind='coarse13', opt='coarse', kind13='contract', T=5, win=(1, 8), ec=True)))
     return out
 
 
@@ -130,7 +134,18 @@ def build_pair(D, kind, T=4, **kw):
 
 
 # ------------------------------------------------------------------------------------------------ run
+def _c13_kw(kw):
+    kw = dict(kw)
+    kw['kind'] = kw.pop('kind13')
+    return kw
+
+
 def run_case(case_id, tier, seed, kind, **kw):
+    if kind == 'coarse13':
+        from . import c13
+        res = c13.run_case(case_id, tier, seed, **_c13_kw(kw))
+        res['prop'] = PROP
+        return res
     rec = lpsem.Rec(PROP, case_id)
     if kind == 'window':
         return run_window(rec, seed, **kw)
@@ -297,6 +312,9 @@ def observe(case, kwargs, env, rq):
     D = lift.Domain(theta=env)
     kw = dict(kwargs)
     kind = kw.pop('kind')
+    if kind == 'coarse13':
+        from . import c13
+        return c13.observe(case, _c13_kw(kw), env, rq)
     if kind == 'window':
         sc = scen.run(D, kw['shape'], kw['kw'], None, True, env=env)
         o = scen.observation(sc)
@@ -330,9 +348,12 @@ def observe(case, kwargs, env, rq):
 
 def judge(case, kwargs, cand, ans):
     info = cand.get('info', {})
+    if kwargs.get('kind') == 'coarse13':
+        from . import c13
+        return c13.judge(case, _c13_kw({k: v for k, v in kwargs.items() if k != 'kind'}), cand, ans)
     if cand.get('form') == 'crash' or 'crash' in info:
         return (True, 'raises on an in-domain input: ' + ans['error'][:200]) if 'error' in ans else (False, 'no exception')
-    if 'dir' in info:
+    if 'dir' in info or info.get('kind') == 'keys':
         return embed_ref.judge(cand, ans)
     if 'error' in ans:
         return None, ans['error']
